@@ -512,6 +512,34 @@ def real_dataset_checks(tier):
             V('real:cf1d:record-dimension', 'editing non-geometry content does not change the cache key', 'dataset encoding unlimited_dims')
     else:
         notes.append('cf1d: bounds with a record dimension are not geometry here')
+    # a mesh that was refused (an index base the conventions do not know) and then corrected in place is keyed like a
+    # fresh copy of the corrected mesh - every table counts
+    try:
+        from emsarray.exceptions import ConventionViolationError
+    except Exception:
+        ConventionViolationError = Exception
+    broken = builders.ugrid('tqp', supply=('edge_node', 'face_edge'), fill='nan', start_index=1)
+    broken['face_edge'].attrs['start_index'] = 2
+    try:
+        make_cache_key_direct(broken)
+        refused = False
+    except Exception:
+        refused = True
+    broken['face_edge'].attrs['start_index'] = 1
+    fresh = builders.ugrid('tqp', supply=('edge_node', 'face_edge'), fill='nan', start_index=1)
+    try:
+        k_fixed, k_fresh = make_cache_key_direct(broken), key_of(fresh)
+        if k_fixed != k_fresh:
+            V('real:ugrid:corrected-in-place', 'identical geometry values give the same key (a dataset refused earlier and corrected in place)', f'refused first: {refused}')
+        edited = broken.copy(deep=True)
+        edited['face_edge'].values[0, 0] = edited['face_edge'].values[0, 1]
+        if make_cache_key_direct(broken) == key_of(edited) and refused:
+            V('real:ugrid:corrected-in-place', 'a single edit of a geometry variable changes the cache key', 'face_edge edited after the mesh was refused once and corrected')
+        broken['face_edge'].values[0, 0] = broken['face_edge'].values[0, 1]
+        if make_cache_key_direct(broken) == k_fixed:
+            V('real:ugrid:corrected-in-place', 'a single edit of a geometry variable changes the cache key', 'face_edge edited in place on the corrected mesh')
+    except Exception as e:
+        V('real:ugrid:corrected-in-place', 'a corrected mesh can be keyed', f'{type(e).__name__}: {e}')
     # the key of a SHOC dataset does not depend on what other datasets were opened with earlier in the process
     from emsarray.conventions.arakawa_c import ArakawaCGridKind as K
     from emsarray.conventions.shoc import ShocStandard
